@@ -728,11 +728,12 @@ def _is_last_flag(f):
 def _flag_of_own_period(ctx, prog, glf):
     """Wherever a per-period factory is called with both `period=P` and `is_last_period=F` -- in a loop body or in a
     comprehension --, F is (P == n_periods - 1) for the same P."""
-    from lcmsa.match import frame_terms, loop_terms
+    from lcmsa.match import deep_walk, frame_terms, loop_terms
 
     seen = set()
+    followed: set = set()
     for t in frame_terms(glf) + loop_terms(prog, glf):
-        for c in walk(t):
+        for c in deep_walk(prog, t, followed):  # also into the loops of helpers that were seen through
             if c[0] != "call" or c in seen or callee_name(c) not in FACTORY_PERIOD_KW:
                 continue
             seen.add(c)
@@ -755,7 +756,7 @@ def _flag_of_own_period(ctx, prog, glf):
                     verdict, why = False, f"is_last_period is computed for period {show(other)[:40]}, the object is built for period {show(p)[:40]}"
             ctx.ob(key, verdict, prog.where(c), why, lhs=f, rhs=f"{show(p)[:40]} == n_periods - 1")
             ctx.count("flagged_factories")
-    ctx.floor("flagged_factories", 2)
+    ctx.floor("flagged_factories", 1)
 
 
 def _last_period_flag(ctx, prog, glf):
